@@ -47,6 +47,7 @@ def host_flags():
                 if ln.startswith("flags"):
                     _host = set(ln.split(":", 1)[1].split()); break
         except OSError: pass
+        _host -= set(filter(None, os.environ.get("C14_HOST_FLAGS_DROP", "").split(",")))      # testing aid: pretend the host lacks these
     return _host
 
 # mnemonic -> /proc/cpuinfo flag.  Everything x86-64 guarantees (base ISA, cmov, MMX, SSE, SSE2) is BASE.
